@@ -10,33 +10,49 @@ CHECK = {
         "type_Vector2f", "type_Vector2d", "type_Vector3f", "type_Vector3d",
         "type_Homogeneous2f", "type_Homogeneous2d", "type_Homogeneous3f", "type_Homogeneous3d",
         "set_uniform", "set_clustered", "set_collinear", "set_coplanar", "set_lattice", "set_identical",
-        "set_duplicates", "set_multiscale", "set_large_offset",
+        "set_duplicates", "set_multiscale", "set_special_values", "set_large_offset", "set_tiny_scale",
         "n_1", "n_2_9_below_leaf", "n_10_11_leaf_boundary", "n_12_200", "n_201_2000", "n_2001_5000",
         "query_inside", "query_on_data_point", "query_near_data_point", "query_far_outside", "query_outside",
-        "query_bbox_corner_face", "query_midpoint_tie", "query_extreme_far"],
+        "query_bbox_corner_face", "query_midpoint_tie", "query_extreme_far", "query_special_point",
+        "call_lvalue", "call_temporaries_const_object", "call_moved_query", "call_query_is_dataset_element",
+        "call_k_aliases_index_buffer", "call_lvalue_const_object",
+        "sibling_index_same_type", "history_2pow8_plus_calls", "history_2pow16_plus_calls"],
     "required_oracles": ["knn.index_in_range", "knn.indices_distinct", "knn.ascending",
                          "knn.distance_of_indexed_point", "knn.jth_distance_vs_bruteforce",
-                         "nn.index_in_range", "nn.distance_of_indexed_point", "nn.distance_vs_bruteforce"],
+                         "nn.index_in_range", "nn.distance_of_indexed_point", "nn.distance_vs_bruteforce",
+                         "stability.kept_outputs_unchanged", "stability.requery_same_distances"],
     "required_counters": ["queries", "knn_outputs_checked", "queries_with_tie_at_kth_boundary",
                           "queries_with_exact_ties_among_k_plus_1", "queries_at_zero_distance",
                           "queries_with_reused_buffers", "sets_with_exact_duplicates",
-                          "queries_with_all_sqdist_above_2pow64"],
+                          "queries_with_all_sqdist_above_2pow64", "sibling_queries", "sibling_destroyed_mid_case",
+                          "history_calls"],
     "rule": "case = one point set + 40 queries. Point type drawn from the 8 types (homogeneous w = 1); n from "
             "{1, 2..9 (< leaf size), 10..11, 12..200, 201..2000, 2001..5000 (5000 itself included)}; set from {uniform box, "
             "1..6 Gaussian clusters, collinear (axis-aligned exact / oblique), coplanar or axis-degenerate, integer lattice "
             "1..7 cells per axis (exact duplicates and ties), all identical, uniform with exact duplicates, nested multiscale "
-            "clusters}, scale log-uniform 1e-3..1e3, centre 0 / +-10 / +-1e3 scales / dyadic / unit-spaced set translated by 1e5..1e9 per axis; query from {inside the box, "
+            "clusters, special values (+0, -0, +-1, +-2, 0.5, 3, 4, +-denorm_min, min normal; 30% with equal components)}, scale log-uniform 1e-3..1e3, centre 0 / +-10 / +-1e3 scales / dyadic / unit-spaced set translated by 1e5..1e9 per axis / tiny extents "
+            "log-uniform from 1e-15 (float) or 1e-150 (double) to 1e-6 (the smallest decades where squared neighbour distances are still "
+            "normal numbers; below, the underflow floor DIM*min-normal makes the value oracles vacuous); query from {inside the box, "
             "exactly a data point, a data point moved by 0..3 ulps or 1e-6..1e-2 extents, 1e3..2e3 extents outside along an "
             "axis / the set's line / a box diagonal / a random direction, 0.6..100 extents outside, box corners-faces-centre, "
-            "midpoint of two data points (exact tie), absolute distance log-uniform 1e3..1e16 from the set (squared distances up to "
-            "~1e32, beyond 2^64)}; k from {1, min(n,50), uniform 1..min(n,50)}; output buffers "
-            "caller-sized (capacity == k) and either sentinel-filled or left holding the previous query's results; "
+            "midpoint of two data points (exact tie), absolute distance log-uniform from 1e3 to 1e18 (float) / 1e150 (double) from the set "
+            "(the last decades for which DIM*distance^2 is finite in the Scalar: FLT_MAX 3.4e38, DBL_MAX 1.8e308; beyond, the unchanged "
+            "code returns inf), exact special points (origin with signed zeros, equal components, integer coordinates, the previous "
+            "query again)}; k from {1, min(n,50), uniform 1..min(n,50)}; output buffers "
+            "caller-sized (capacity == k) and either sentinel-filled or left holding the previous query's results; call form from {lvalues, temporaries through a "
+            "const object, std::move'd query, the query being an element of the indexed set passed by reference, k read through a reference "
+            "into the index output buffer, lvalues through a const object}; half of the cases keep a second index of the same type over "
+            "1..40 points (random / same coordinates / translated) that is queried (and checked) between the queries and is sometimes "
+            "destroyed mid-case; the first query's output buffers are kept untouched and re-compared at the end and the first query is "
+            "repeated at the end; 3% of the cases with n <= 200 first make 2^8+j, 0.5% 2^16+j calls of one of the two queries "
+            "(j = -40..3, so that call number 2^8 / 2^16 on the object is one of the observed ones or just precedes them); "
             "non-trivial = n > 10 (a tree with at least one split; every case has queries that are not data points)",
     "level_text": "exploration: the real KdTree (all 8 point-type instantiations, vendored nanoflann index) is built on "
-                  "6e3 (quick) / 1e5 (thorough) generated point sets of 1..5000 points and queried 40 times each "
-                  "(2.4e5 / 4e6 k-nearest + as many single-nearest queries); every returned index and squared distance is "
+                  "1.2e4 (quick) / 1e5 (thorough) generated point sets of 1..5000 points and queried 41 times each "
+                  "(4.9e5 / 4.1e6 k-nearest + as many single-nearest queries, in every call form the signatures admit, interleaved "
+                  "with queries on a sibling index and preceded in a small share of cases by 2^8 / 2^16 calls); every returned index and squared distance is "
                   "compared with an exhaustive long-double scan: indices in range and distinct, distances ascending, each "
-                  "distance that of the indexed point, j-th distance the j-th smallest; ASan+UBSan and live asserts watch "
+                  "distance that of the indexed point, j-th distance the j-th smallest, earlier results unchanged by later calls; ASan+UBSan and live asserts watch "
                   "the caller-sized heap result buffers during the same executions",
     "level_note": ASAN_NOTE,
     "technique": "runtime monitoring: sanitizer build + brute-force long-double reference oracle over generated point sets and queries",
@@ -45,8 +61,16 @@ CHECK = {
         "'exactly the k smallest' is read to rounding of the point type's Scalar: reported distance within 2(DIM+2) eps of "
         "the indexed point's true squared distance (4x the a-priori bound of the evaluation), j-th reported distance within "
         "16 eps of the j-th smallest true one; ties may be returned in any order",
-        "finite coordinates, no overflow of squared distances in float (|coordinates| <= ~1e16, squared distances < ~3e32), "
+        "finite coordinates, no overflow of squared distances in the Scalar (|coordinates| <= ~1e18 float, ~1e150 double), "
         "1 <= k <= min(n, 50), n >= 1",
+        "the point set outlives the index and is not modified while the index exists (KdTree keeps a reference to it and has no "
+        "rvalue overload: a temporary point set would dangle; lifetime contract, outside the statement)",
+        "the outputs do not overlap the query: findNearestNeighbor(Q, i, Q[0]) writes its 'not found yet' sentinel (max) through the "
+        "distance reference before it reads the query and then finds nothing; writing an output over a const input is treated as "
+        "a caller error (Eigen aliasing convention), not as a point of the statement's quantifier. Aliasing that leaves the "
+        "inputs intact (k referring into the index buffer, query referring into the indexed set) is exercised",
+        "KdTree is neither copyable nor movable (static fact, re-checked at compile time by the harness: if it becomes so, the copy "
+        "is used after the source is destroyed); radiusResearch is outside the statement",
         "g++ 12 ASan+UBSan runtime; asserts live (no -DNDEBUG)"],
 }
 
